@@ -5,6 +5,8 @@ package server
 import (
 	"net"
 	"time"
+
+	"github.com/semihalev/sdns/middleware"
 )
 
 // Accessors for the C11 check. No behaviour change.
@@ -66,4 +68,29 @@ func VerifC11BeforeWrite(prevOffset time.Duration) (armedOffset, writeWait time.
 		s.wait.Stop()
 	}
 	return s.deadline.Sub(t0), tcpWriteWait, err
+}
+
+type verifC11NoRaw struct{}
+
+func (verifC11NoRaw) ServeRaw(middleware.Transport, []byte, time.Time) bool { return true }
+
+// VerifC11TCPClass reports, for a frame of the given length, the class of
+// the admission token tcpEngine.tokens picks and the class of the slab
+// acquire leases (largeClass): put returns the token by the slab's class,
+// so the two must agree for every length.
+func VerifC11TCPClass(length int) (tokenLarge, slabLarge bool) {
+	e := newTCPEngine(verifC11NoRaw{}, "tcp", 4, defaultResourcePlan(1))
+	return e.tokens(length) == e.largeTokens, largeClass(length)
+}
+
+// VerifC11TCPClassMismatches lists every frame length 0..65535 on which the
+// two disagree, and the small-class boundary.
+func VerifC11TCPClassMismatches() (bad []int, smallFrame int) {
+	e := newTCPEngine(verifC11NoRaw{}, "tcp", 4, defaultResourcePlan(1))
+	for l := 0; l <= tcpJobBufSize; l++ {
+		if (e.tokens(l) == e.largeTokens) != largeClass(l) {
+			bad = append(bad, l)
+		}
+	}
+	return bad, tcpSmallFrame
 }
